@@ -666,7 +666,17 @@ pub(crate) fn shr(lhs: Number, rhs: Number, arena: &mut Arena) -> Result<Number,
                 }
             };
 
-            Ok(Number::arena_from(Integer::from(&*lhs >> rhs), arena))
+            // NOTE: `>>` must round toward negative infinity, like the fixnum case.
+            // For a negative operand compute it as !(!lhs >> rhs): !lhs is non-negative,
+            // which avoids dashu's rounding correction for negative operands (it misjudges
+            // the shifted-out bits of 65..128-bit magnitudes when rhs > 64).
+            let res = if lhs.is_negative() {
+                !Integer::from(!&*lhs >> rhs)
+            } else {
+                Integer::from(&*lhs >> rhs)
+            };
+
+            Ok(Number::arena_from(res, arena))
         }
         other => Err(numerical_type_error(ValidType::Integer, other, stub_gen)),
     }
